@@ -1301,9 +1301,11 @@ fn filter_text_strikeout(s: &str) -> Option<String> {
     let mut result = String::new();
     for c in s.chars() {
         result.push(c);
-        if UnicodeWidthChar::width(c).unwrap_or(0) > 0 {
+        if !c.is_whitespace() && UnicodeWidthChar::width(c).unwrap_or(0) > 0 {
             // This is a character with width (not a combining or other character)
-            // so add a strikethrough combiner.
+            // so add a strikethrough combiner.  White space is left alone: it is
+            // collapsed and wrapped later, and a combiner after a space would make
+            // the result depend on how the source spelled the white space.
             result.push('\u{336}');
         }
     }
